@@ -182,6 +182,12 @@ def gen_history(rnd: random.Random, nsteps: int, profile: str = 'mixed', big: bo
                         'src_pack': rnd.random() < 0.3, 'frac': rnd.random(), 'sel_seed': rnd.randrange(1 << 30), 'compress': rnd.random() < 0.5,
                         'tmb': rnd.choice([1, 20, 100, 10 ** 6]), 'iterable': rnd.choice(['list', 'tuple', 'set', 'generator']),
                         'callback': rnd.random() < 0.4, 'absent': rnd.random() < 0.5, 'repeat': rnd.random() < 0.4})
+            if rnd.random() < 0.25:
+                # the zero-length object: requested alone, or together with objects that all bypass the cache (budget 1)
+                ops[-1]['empty'] = rnd.choice(['alone', 'streamed_rest'])
+                ops[-1]['empty_form'] = rnd.choice(['loose', 'pack', 'packz'])
+                if ops[-1]['empty'] == 'streamed_rest':
+                    ops[-1]['tmb'] = 1
         elif k == 'src_add':
             ops.append({'op': 'src_add', 'i': rnd.randrange(n), 'form': rnd.choice(['loose', 'pack', 'packz'])})
         elif k == 'src_pack':
@@ -342,10 +348,15 @@ class Runner:
         elif k == 'import':
             for i, form in op['add']:
                 self._src_add(i, form)
+            if op.get('empty'):
+                self._src_add(self.pool.index(b''), op['empty_form'])
             if op['src_pack']:
                 self.src.pack_all_loose()
             rs = random.Random(op['sel_seed'])
             req = [x for x in sorted(self.srcmodel) if rs.random() < op['frac']]
+            if op.get('empty'):
+                ek = H(self.ht2, b'')
+                req = [ek] if op['empty'] == 'alone' else list(dict.fromkeys(req + [ek]))
             if op['absent']:
                 req.append('0' * len(H(self.ht2, b'')))
             if op['repeat'] and req:
@@ -365,7 +376,7 @@ class Runner:
                     raise Fail({'C14'}, f'import mapping sends {ok[:8]} to {nk[:8]}')
             must = distinct_present if self.ht != self.ht2 else distinct_present - already
             if not must <= set(m):
-                raise Fail({'C14'}, f'import mapping omits {len(must - set(m))} requested keys the source holds '
+                raise Fail({'C14', 'C02'}, f'import mapping omits {len(must - set(m))} requested keys the source holds '
                                     f'(iterable={op["iterable"]}, callback={op["callback"]}, hash {self.ht2}->{self.ht})')
             for x in distinct_present:
                 self.model[H(ht, self.srcmodel[x])] = self.srcmodel[x]
